@@ -316,3 +316,49 @@ func VP_C08_CloseLend() {
 	zzvp.Assert(stats1.TotalLend.Sub(stats0.TotalLend).Equal(l.AvailableToBorrow.Neg()), "published-lent-falls-by-what-was-available")
 	zzvp.Assert(zzvp.BalanceDelta(zzvp.ModuleAddr(pool.ModuleName), l.AmountIn.Denom).Equal(l.AvailableToBorrow.Neg()), "pool-pays-exactly-what-was-available")
 }
+
+// BorrowAlternate (lend and borrow in one message), fresh-position branch: the lend half opens the position exactly like
+// MsgLend - everything lent is available to borrow, the published total lent moves by the LENT amount, the pool receives
+// it and the receipt tokens are minted for it - and the borrow half is asked exactly once for the new position, the
+// receipt coin of the lent amount and the requested loan. The borrow half itself (BorrowAsset) is a contract stub here:
+// it writes nothing in this obligation, so the identities of the lend half are exact.
+func VP_C08_BorrowAlternateOpensTheLendLikeMsgLend() {
+	k, ctx := vpLendWorldWith("HasLendForAddressByAsset", "GetLendIDForAssetIDPoolID", "BorrowAsset", "DepositAsset")
+	var ak assetkeeper.Keeper
+	zzvp.Wire(&ak)
+	msg := types.MsgBorrowAlternate{Lender: zzvp.AnyString(), AssetId: zzvp.AnyUint64(), PoolId: zzvp.AnyUint64(), AmountIn: vpAnyCoin(), PairId: zzvp.AnyUint64(),
+		IsStableBorrow: zzvp.AnyBool(), AmountOut: vpAnyCoin(), AppId: zzvp.AnyUint64()}
+	zzvp.Assume(msg.ValidateBasic() == nil)
+	pool, _ := k.GetPool(ctx, msg.PoolId)
+	stats0, _ := k.GetAssetStatsByPoolIDAndAssetID(ctx, msg.PoolId, msg.AssetId)
+	zzvp.Assume(stats0.PoolID == msg.PoolId && stats0.AssetID == msg.AssetId)
+	counter := k.GetUserLendIDCounter(ctx)
+	zzvp.Assume(counter < 1<<63)
+	vpNotAModule(msg.Lender, pool.ModuleName)
+	vpReceiptTokenIsAnotherDenom(k, ak, ctx, msg.AssetId)
+	rates, _ := k.GetAssetRatesParams(ctx, msg.AssetId)
+	cAsset, _ := ak.GetAsset(ctx, rates.CAssetID)
+	lender, _ := sdk.AccAddressFromBech32(msg.Lender)
+	zzvp.Mark()
+	// the keeper function the message handler delegates to (the handler adds gas accounting and an event)
+	err := k.BorrowAlternate(ctx, msg.Lender, msg.AssetId, msg.PoolId, msg.AmountIn, msg.PairId, msg.IsStableBorrow, msg.AmountOut, msg.AppId)
+	if err != nil {
+		return
+	}
+	if k.GetUserLendIDCounter(ctx) == counter {
+		return // an existing position was topped up (DepositAsset + BorrowAsset): VP_C08_Deposit
+	}
+	zzvp.Reach("lend-and-borrow-succeeded")
+	zzvp.Assert(k.GetUserLendIDCounter(ctx) == counter+1, "id-counter-moves-by-one")
+	l1, found := k.GetLend(ctx, counter+1)
+	zzvp.Assert(zzvp.And(found, l1.Owner == msg.Lender, l1.AssetID == msg.AssetId, l1.PoolID == msg.PoolId, l1.AppID == msg.AppId), "new-position-stored-under-the-next-id")
+	zzvp.Assert(l1.AvailableToBorrow.Equal(msg.AmountIn.Amount) && l1.AmountIn.Amount.Equal(msg.AmountIn.Amount), "everything-lent-is-available-to-the-borrow-half")
+	stats1, _ := k.GetAssetStatsByPoolIDAndAssetID(ctx, msg.PoolId, msg.AssetId)
+	zzvp.Assert(stats1.TotalLend.Sub(stats0.TotalLend).Equal(msg.AmountIn.Amount), "published-lent-moves-by-the-lent-amount")
+	zzvp.Assert(zzvp.BalanceDelta(zzvp.ModuleAddr(pool.ModuleName), msg.AmountIn.Denom).Equal(msg.AmountIn.Amount), "pool-receives-exactly-the-lent-amount")
+	zzvp.Assert(zzvp.BalanceDelta(lender, cAsset.Denom).Equal(msg.AmountIn.Amount) && zzvp.SupplyDelta(cAsset.Denom).Equal(msg.AmountIn.Amount), "receipt-tokens-for-exactly-the-lent-amount")
+	zzvp.Assert(zzvp.SpyCount(vpLK+"BorrowAsset") == 1, "borrow-half-asked-once")
+	zzvp.Assert(zzvp.And(zzvp.SpyArgZ(vpLK+"BorrowAsset", 0, 3).Equal(zzvp.ZU(counter+1)), zzvp.SpyArgZ(vpLK+"BorrowAsset", 0, 4).Equal(zzvp.ZU(msg.PairId)),
+		zzvp.SpyArgZ(vpLK+"BorrowAsset", 0, 6).Equal(zzvp.ZI(msg.AmountIn.Amount)), zzvp.SpyArgZ(vpLK+"BorrowAsset", 0, 7).Equal(zzvp.ZI(msg.AmountOut.Amount))),
+		"borrow-half-gets-the-new-position-the-pair-the-receipt-amount-and-the-requested-loan")
+}
